@@ -65,6 +65,10 @@ def damage(text, how):
         return text.replace('"type": "production"', '"type": "bogus"').encode("utf-8")
     if how == "missing-key":
         return b"{}"
+    if how == "bom":
+        return b"\xef\xbb\xbf" + text.encode("utf-8")      # well-formed content in another ENCODING: whatever a direct load
+    if how == "utf16":
+        return text.encode("utf-16")                       # of that file does, the accessor does (differential, see below)
     return text.encode("utf-8")
 
 
@@ -149,14 +153,21 @@ class CDMachine(MachineBase):
         want, why = self.expected_compose_paths(given)
         results = []
         k = op.get("repeat", 1)
+        arg = given
+        cwd = self.cfg.get("cwd")
+        if op.get("relative") and cwd and given.startswith(cwd.rstrip("/") + "/"):
+            # the compose is addressed RELATIVELY to the current directory (a tool started next to the compose)
+            arg = given[len(cwd.rstrip("/")) + 1:]
+            if op["relative"] == "dot":
+                arg = "./" + arg
         for i in range(k):
             try:
-                c = productmd.compose.Compose(given)
+                c = productmd.compose.Compose(arg)
             except Exception as e:
                 if isinstance(e, HarnessError):
                     raise
                 raise Violation("C20", "C20.compose_opens", "Compose()-raises/%s" % exc_class(e), {"msg": str(e)[:160], "layout": why})
-            results.append(posixpath.normpath(c.compose_path))
+            results.append(self._simpath(c.compose_path))
         self.compose = c
         self.cpath = given
         self.cached = {}
@@ -171,8 +182,13 @@ class CDMachine(MachineBase):
                                 {"results": sorted(set(results))})
         return "open:" + why
 
+    def _simpath(self, p):
+        """a path as the Compose object spells it -> the normalised path under the virtual root"""
+        from .. import simfs
+        return posixpath.normpath(simfs.resolve(p))
+
     def _expected_file(self, attr):
-        base = posixpath.normpath(self.compose.compose_path)
+        base = self._simpath(self.compose.compose_path)
         for cand in CANDIDATES[attr]:
             p = posixpath.normpath(posixpath.join(base, cand))
             if p in self.fs.files:
@@ -184,7 +200,7 @@ class CDMachine(MachineBase):
         if self.compose is None:
             return "noop"
         attr = op["attr"]
-        base = posixpath.normpath(self.compose.compose_path)
+        base = posixpath.normpath(self.compose.compose_path)        # as the object spells it (what its messages name)
         target = self._expected_file(attr)
         fault = op.get("fault")
         was_cached = attr in self.cached
@@ -246,6 +262,32 @@ class CDMachine(MachineBase):
             if raised is None and dmg is None:
                 raise Violation("C20", "C20.wrong_type_rejected", "wrong-metadata-type-loaded", {"attr": attr, "kind": rec["kind"]})
             return "wrong-kind"
+        if dmg in ("bom", "utf16"):
+            # differential: the accessor must do what the library's own load(path) does with that very file
+            cls0 = {"info": productmd.composeinfo.ComposeInfo, "images": productmd.images.Images, "rpms": productmd.rpms.Rpms,
+                    "modules": productmd.modules.Modules}[attr]
+            probe = cls0()
+            self.fs.disarm()
+            try:
+                probe.load(target)
+                direct_ok = True
+            except Exception as e:
+                if isinstance(e, HarnessError):
+                    raise
+                direct_ok = False
+            self.count("C20", ["other-encoding", attr, dmg, direct_ok, raised is None])
+            if direct_ok != (raised is None):
+                raise Violation("C20", "C20.accessor_equals_direct_load", "accessor-vs-direct-load-disagree/%s" % dmg,
+                                {"attr": attr, "direct_load_ok": direct_ok, "accessor_raised": exc_class(raised) if raised else None})
+            if raised is not None:
+                if not isinstance(raised, RuntimeError):
+                    raise Violation("C20", "C20.undecodable_file_is_runtimeerror", "damaged-file-exctype/%s/%s" % (dmg, exc_class(raised)), {"attr": attr})
+                return "damaged:" + exc_class(raised)
+            if obj.dumps() != probe.dumps():
+                raise Violation("C20", "C20.accessor_equals_direct_load", "accessor-differs-from-direct-load", {"attr": attr, "file": target})
+            self.cached[attr] = obj
+            self.cached_tag[attr] = rec["tag"]
+            return "loaded-other-encoding"
         if dmg:
             self.count("C20", ["damaged", attr, dmg])
             if raised is None:
